@@ -11,5 +11,6 @@ export CARGO_NET_OFFLINE=true
 ./translator/target/release/rs2v effects /repo coq/Gen/ProcessEffects.v
 ./translator/target/release/rs2v window /repo coq/Gen/WindowGen.v
 ./translator/target/release/rs2v kem /repo coq/Gen/KemGen.v
+./translator/target/release/rs2v pathreq /repo coq/Gen/PathReqGen.v
 (cd coq && coq_makefile -f _CoqProject -o Makefile >/dev/null && timeout 3000 make -j16 >/dev/null)
 echo setup done
